@@ -705,7 +705,8 @@ def pick_variants(rng: random.Random, n: int, L: int, count: int, chunks: List[i
     return out
 
 
-def tu_whole(groups: List[Tuple[Grammar, List[Tuple[str, List[int]]]]], files: bool = False, topfn=None) -> Tuple[str, Dict[Tuple[str, str], int]]:
+def tu_whole(groups: List[Tuple[Grammar, List[Tuple[str, List[int]]]]], files: bool = False, topfn=None, eols=('lf_crlf',)) -> Tuple[str, Dict[Tuple[str, str], int]]:
+    """`eols`: end-of-line policies to instantiate each case with; the first one is keyed ( gid, top ), the others ( gid, top + '@' + eol )."""
     topfn = topfn or top_decl
     o = ['#include "vharness_buf.hpp"', '#include <iostream>', '#include <sstream>']
     idx: Dict[Tuple[str, str], int] = {}
@@ -718,12 +719,13 @@ def tu_whole(groups: List[Tuple[Grammar, List[Tuple[str, List[int]]]]], files: b
             d, root, act = topfn(g, top, roots)
             if d:
                 extra.append(d)
-            idx[(g.gid, top)] = k
             fn = 'compare_files' if files else 'compare_case'
             args = '( cid, bytes, path, big, small )' if files else '( cid, bytes, vs )'
-            calls.append(f"  case {k}: vhb::{fn}< {g.ns}::tag, {root}, {act}, {g.ns}::ctl, tao::pegtl::apply_mode::action, "
-                         f"tao::pegtl::rewind_mode::required, tao::pegtl::eol::lf_crlf >{args}; break;")
-            k += 1
+            for ei, eol in enumerate(eols):
+                idx[(g.gid, top if ei == 0 else f"{top}@{eol}")] = k
+                calls.append(f"  case {k}: vhb::{fn}< {g.ns}::tag, {root}, {act}, {g.ns}::ctl, tao::pegtl::apply_mode::action, "
+                             f"tao::pegtl::rewind_mode::required, tao::pegtl::eol::{eol} >{args}; break;")
+                k += 1
         # the extra declarations go inside the grammar's namespace, before the vid specialisations
         marker = "}\ntemplate<> inline constexpr int vh::vid<"
         body = "\n".join(extra) + "\n"
@@ -1093,7 +1095,10 @@ def run_files(verdict: common.Verdict, tier: str, rng: random.Random) -> Dict[st
         dist = {'sizes': FILE_SIZES, 'grammars': [g.gid for g, _, _, _ in gs], 'files': 0}
         sizes = FILE_SIZES if tier != 'quick' else FILE_SIZES
         for g, roots, tops, kind in gs:
-            src, idx = tu_whole([(g, [(t, roots) for t in tops])], files=True, topfn=file_top)
+            # every input class under a second end-of-line policy as well (each class forwards the policy to its base on its own)
+            alt = {'tokens': 'cr', 'lines': 'lf'}.get(kind)
+            eols = ('lf_crlf',) + ((alt,) if alt else ())
+            src, idx = tu_whole([(g, [(t, roots) for t in tops])], files=True, topfn=file_top, eols=eols)
             feed = []
             for size in sizes:
                 for flavour in (0, 1, 2) if (kind == 'tokens') else (0, 1):
@@ -1110,6 +1115,10 @@ def run_files(verdict: common.Verdict, tier: str, rng: random.Random) -> Dict[st
                                                                  'big': size + 8, 'small': small, 'flavour': flavour})
                         owners[cid] = c
                         feed.append(f"{idx[(g.gid, t)]} {cid} {path} {size + 8} {small} {hx(data)}")
+                        if alt and size <= 4097:
+                            cid2 = f"{cid}@{alt}"
+                            owners[cid2] = RunCase(cid2, g, t, roots, data, [], dict(c.meta, eol=alt))
+                            feed.append(f"{idx[(g.gid, t + '@' + alt)]} {cid2} {path} {size + 8} {small} {hx(data)}")
             batches.append((src, feed))
         lines, problems, timing = compile_and_run(f"{PROP}_files", batches, 'asan-O1', jobs=3)
     for p in problems[:4]:
